@@ -813,7 +813,11 @@ class C07(Prop):
 
 class C08(Prop):
     id = "C08"
-    streams = srv_streams("mix", {"R", "H", "F", "A", "K", "N", "Q", "W", "I", "C", "Z"})
+    # the in-process server state, and (a smaller volume) the same request mix over the JSON services, where an unknown
+    # backtest is HTTP 400 and an id segment that is no id at all (`-1`, `abc`, 2^64) must be refused without touching a state
+    streams = srv_streams("mix", {"R", "H", "F", "A", "K", "N", "Q", "W", "I", "C", "Z"}) + [
+        Stream(f"http-{k}", "http-mix", quick=60, thorough=4000, rtol=1e-12,
+               tags={"ST", "NB", "PANIC", "REJECT-ADMISSION", "ok", "reset", "bad-op"}) for k in ("uist", "jura")]
     determined = False
     solo_cases_quick = 400
     solo_cases_thorough = 3000
@@ -843,7 +847,26 @@ class C08(Prop):
                 unknown = True
         return len(live) >= 2 and unknown
 
+    def monitor_http(self, stream, annot, impl):
+        for n, (op, out) in enumerate(zip(annot, impl)):
+            s = sections(out)
+            if "ST" not in s:
+                continue
+            refused = s["ST"][0].startswith("4")
+            if op.startswith("RAW") and not refused:
+                yield (n, "malformed-backtest-id-refused", f"{op}: answered {s['ST'][0]}")
+                return
+            if refused and s.get("SEQ") == ["false"]:
+                yield (n, "rejected-request-changes-no-state", f"{op.split(' A ')[0]}: answered {s['ST'][0]} but a backtest's state differs from the in-process twin's afterwards")
+                return
+            if not op.startswith("RAW") and s.get("EQ") == ["false"] and (refused or s["ST"][0] == "200"):
+                yield (n, "unknown-backtest-or-dataset-is-400", f"{op.split(' A ')[0]}: HTTP {s['ST'][0]}, the in-process call {'succeeds' if refused else 'reports unknown (or returns something else)'}")
+                return
+
     def monitor(self, stream, annot, impl):
+        if stream.component.startswith("http-"):
+            yield from self.monitor_http(stream, annot, impl)
+            return
         returned = []
         for n, (op, out) in enumerate(zip(annot, impl)):
             t = op.split()
@@ -883,6 +906,8 @@ class C08(Prop):
         """implementation-only metamorphic check: per-backtest response streams equal those of solo runs"""
         from . import core
         import os
+        if stream.component.startswith("http-"):
+            return      # the solo runs and the concurrent run belong to the in-process streams
         limit = self.solo_cases_thorough if tier == "thorough" else self.solo_cases_quick
         solo_ops, index = [], []
         ncase = 0
